@@ -170,7 +170,11 @@ func H_Equal() {
 	if vx.Param("containers") == 1 && !A.isContainer() {
 		return
 	}
-	switch chooseMask("mode", vx.Param("modes"), 4) {
+	switch chooseMask("mode", vx.Param("modes"), 5) {
+	case 4:
+		// members reversed AND symbolic whitespace at every structural position
+		B = respell(A, 2)
+		bB = renderPadded(B, "b.")
 	case 0:
 		B = eqShape(vx.Choose("sb", nsh), "b.")
 		vx.Assume(!B.hasDupKeys())
